@@ -12,6 +12,7 @@ import Proofs.GoTieFmtStr
 import Proofs.GoTieFormat
 import Proofs.GoTieMarshal
 import Proofs.GoTieSmall
+import Props.C07
 namespace AgeModel
 namespace Tie.C07
 
@@ -99,6 +100,23 @@ theorem decodeString_model {ε : Type} (Dec : ε → Bytes → Go.M (Bytes × Op
       | some b => r = (b, none)
       | none => r.1 = [] ∧ r.2 ≠ none :=
   GoTie.decodeString_model Dec b64 eD hDec s
+
+/-! ### The round trip, stated about the CODE
+
+`header_marshal_tie`, `Props.C07.parse_of_marshal` and `parse_tie` composed: for EVERY well-formed header and
+whatever follows it, what the translated `Header.Marshal` writes is read back by the translated `Parse` as that
+header, with exactly the rest left over. -/
+
+theorem code_parse_of_marshal {δ ε ω : Type} (E : GoTie.MarshalEnv δ ε ω) (D : Bytes → Go.M (Bytes × Option Go.Err)) (eD : Go.Err)
+    (hD : GoTie.DecodeIsModel D eD) (h : Format.Header) (hwf : h.WF) (rest : Bytes) (d : δ) :
+    ∃ d', Extracted.format_Header_Marshal E.W E.b64 E.New E.Wr E.Cl E.Enc ⟨h.stanzas.map GoTie.toGoFStanza, h.mac⟩ d = .ok (none, d') ∧
+      Extracted.format_Parse D ((E.absD d').drop (E.absD d).length ++ rest) = .ok (GoTie.toGoHeader h, rest, none) := by
+  obtain ⟨d', hm, habs⟩ := header_marshal_tie E h d
+  refine ⟨d', hm, ?_⟩
+  rw [habs, List.drop_left]
+  obtain ⟨res, hp, hres⟩ := parse_tie D eD hD (Format.marshal h ++ rest)
+  rw [Props.C07.parse_of_marshal h hwf rest] at hres
+  rw [hp, hres]
 
 end Tie.C07
 end AgeModel
